@@ -175,6 +175,12 @@ func (w *World) opCreateApp() {
 			a.Pool = pick(c, []string{"p-1", "a_b"}) // "any pool name": an annotation value is free text
 		}
 	}
+	if a.Kind != "dp" && w.prof.Pools && (w.prop == "C02" || w.prop == "C03" || w.prop == "C04" || w.prop == "C01") && c.Prob(1, 6) {
+		// "every pod using a named IP pool": the pool annotation on a statefulset / custom-resource / bare pod (kept like
+		// never, under the pod's own key inside the pool's prefix)
+		a.Pool = pick(c, []string{"blue", "green"})
+		w.S.Stat("pool.on-non-deployment-workload")
+	}
 	if w.prof.Ranges && (c.Prob(1, 3) || w.prop == "C08" && c.Prob(3, 4)) && !(a.Kind == "dp" && a.effPolicy() != "") {
 		a.Ranges = w.genRanges()
 	}
